@@ -27,6 +27,8 @@ class Z3Ctx:
         self.uf_axioms = {}     # name -> callable(args z3, result z3) -> list of constraints
         self.queries = 0
         self.solver_time = 0.0
+        self.som_cache = {}
+        self.som_def_cache = {}
 
     def fresh(self, prefix, sort='R'):
         self.aux_count += 1
@@ -135,10 +137,136 @@ class Z3Ctx:
         if op == 'xor': return (z3.Xor(e[0], e[1]), deps)
         raise Unsupported('z3 translation of ' + op)
 
+    def trs(self, n):
+        """like tr, but the z3 term is put in sum-of-monomials normal form (so that equal polynomials
+        written differently by the code and by an oracle become the same term)"""
+        r = self.som_cache.get(n.id)
+        if r is None:
+            e, deps = self.tr(n)
+            try:
+                e = z3.simplify(e, som=True, mul_to_power=False)
+            except z3.Z3Exception:
+                pass
+            r = (e, deps)
+            self.som_cache[n.id] = r
+        return r
+
+    def sdef(self, k):
+        r = self.som_def_cache.get(k)
+        if r is None:
+            r = self.def_list[k][1]
+            try:
+                r = z3.simplify(r, som=True, mul_to_power=False)
+            except z3.Z3Exception:
+                pass
+            self.som_def_cache[k] = r
+        return r
+
     def formula(self, n):
         """z3 Bool for node n conjoined with its auxiliary definitions"""
         e, deps = self.tr(n)
         return e, [self.def_list[d][1] for d in sorted(deps)]
+
+class NormCtx:
+    """stage N: boolean skeleton over canonical polynomials (see irsym/poly.py). Over-approximation: unsat is sound."""
+    def __init__(self, positive_vars=()):
+        from .poly import PolyCtx
+        self.P = PolyCtx(positive_vars)
+        self.vars = {}
+        self.cache = {}
+        self.facts = {}
+
+    def pvar(self, key, q):
+        v = self.vars.get(key)
+        if v is None:
+            v = z3.Real('P!%d' % len(self.vars))
+            self.vars[key] = v
+            # a lone sqrt atom (or product of sqrt atoms / even powers) is non-negative
+            if len(q) == 1:
+                (m, c), = q.items()
+                if all((self.P.atoms[a][0] == 'sqrt' and e > 0) or e % 2 == 0 for a, e in m):
+                    self.facts[key] = v >= 0
+        return v
+
+    def tr(self, n):
+        r = self.cache.get(n.id)
+        if r is not None: return r
+        op = n.op
+        if op == 'true': r = z3.BoolVal(True)
+        elif op == 'false': r = z3.BoolVal(False)
+        elif op == 'and': r = z3.And(self.tr(n.args[0]), self.tr(n.args[1]))
+        elif op == 'or': r = z3.Or(self.tr(n.args[0]), self.tr(n.args[1]))
+        elif op == 'not': r = z3.Not(self.tr(n.args[0]))
+        elif op == 'xor': r = z3.Xor(self.tr(n.args[0]), self.tr(n.args[1]))
+        elif op in ('lt', 'le', 'gt', 'ge', 'eq', 'ne') and n.args[0].sort == 'R':
+            P = self.P
+            p = P.padd(P.of(n.args[0]), P.of(n.args[1]), -1)
+            c, key, q = P.canon(p)
+            if not p:
+                lhs = z3.RealVal(0)
+            elif len(p) == 1 and () in p:
+                lhs = z3.RealVal(str(p[()]))
+            else:
+                lhs = z3.RealVal(str(c)) * self.pvar(key, q)
+            zero = z3.RealVal(0)
+            r = {'lt': lhs < zero, 'le': lhs <= zero, 'gt': lhs > zero, 'ge': lhs >= zero, 'eq': lhs == zero, 'ne': lhs != zero}[op]
+        else:
+            r = z3.Bool('opaque!%d' % n.id)
+        self.cache[n.id] = r
+        return r
+
+    def unsat(self, nodes, timeout_ms=5000):
+        s = z3.Solver()
+        s.set('timeout', timeout_ms)
+        for n in nodes:
+            s.add(self.tr(n))
+        for f in self.facts.values():
+            s.add(f)
+        return s.check() == z3.unsat
+
+def norm_of(z):
+    n = getattr(z, 'norm', None)
+    if n is None:
+        n = z.norm = NormCtx(getattr(z, 'positive_vars', ()))
+    return n
+
+def slice_context(z, pc_nodes, goal):
+    """pc conjuncts relevant to goal: those without auxiliary symbols (pure conditions over the inputs) and those
+    connected to the goal through shared auxiliary symbols (sqrt/floor/... definitions). Dropping conjuncts is sound
+    for unsat answers (a subset being unsat implies the whole is unsat)."""
+    need = set(z.tr(goal)[1])
+    rest = []
+    chosen = []
+    for n in pc_nodes:
+        d = z.tr(n)[1]
+        if not d: chosen.append(n)
+        else: rest.append((n, d))
+    changed = True
+    while changed and rest:
+        changed = False
+        keep = []
+        for n, d in rest:
+            if d & need:
+                chosen.append(n); need |= d; changed = True
+            else:
+                keep.append((n, d))
+        rest = keep
+    return chosen, len(rest)
+
+def _solve(z, nodes, timeout_ms):
+    s = z3.Solver()
+    s.set('timeout', timeout_ms)
+    deps = set()
+    for n in nodes:
+        e, d = z.trs(n)
+        s.add(e); deps |= d
+    for k in sorted(deps):
+        s.add(z.sdef(k))
+    t = time.time()
+    r = s.check()
+    z.solver_time += time.time() - t
+    z.queries += 1
+    return r, s
 
 def model_value(m, name, sort='R'):
     v = m.eval(z3.Real(name) if sort == 'R' else z3.Int(name), model_completion=True)
@@ -299,6 +427,9 @@ class PathController:
         self.pool = SamplePool(seed=12345)
         self.use_sampling = True
         self.stats_sampled = 0
+        self.generic_position = False
+        self.generic_assumed = []
+        self._gp_seen = set()
         self.stats = {'branch_queries': 0, 'forks': 0, 'forced': 0, 'replayed': 0}
         self._solver = None
 
@@ -349,19 +480,24 @@ class PathController:
     def _check(self, extra_node):
         if self.witness(extra_node):
             return z3.sat
-        e, deps = self.z.tr(extra_node)
-        s = self._solver
-        s.push()
-        for d in deps:
-            if d not in self._asserted_defs:
-                s.add(self.z.def_list[d][1])
-        s.add(e)
-        t = time.time()
-        r = s.check()
-        self.z.solver_time += time.time() - t
-        self.z.queries += 1
+        # fresh (non-incremental) solver: lets z3 pick nlsat for QF_NRA, which the incremental core does not use.
+        # stage 1: sliced context (sound for unsat); stage 2: full context.
         self.stats['branch_queries'] += 1
-        s.pop()
+        t = time.time()
+        try:
+            if norm_of(self.z).unsat(self.pc + [extra_node]):
+                self.z.queries += 1; self.z.solver_time += time.time() - t
+                self.stats['normalised_unsat'] = self.stats.get('normalised_unsat', 0) + 1
+                return z3.unsat
+        except RecursionError:
+            pass
+        self.z.queries += 1; self.z.solver_time += time.time() - t
+        sl, dropped = slice_context(self.z, self.pc, extra_node)
+        if dropped:
+            r, _ = _solve(self.z, sl + [extra_node], self.branch_timeout_ms)
+            if r == z3.unsat:
+                return r
+        r, _ = _solve(self.z, self.pc + [extra_node], self.branch_timeout_ms)
         return r
 
     def decide(self, cond, it):
@@ -372,6 +508,21 @@ class PathController:
             self.stats['replayed'] += 1
             self._assert(cond if d.taken else S.bnot(cond))
             return d.taken
+        if self.generic_position and cond.op in ('eq', 'ne') and cond.args[0].sort == 'R':
+            # degeneracy guard on a real quantity (x == c): the claim is restricted to inputs in generic position,
+            # i.e. the non-equal side is assumed (recorded) provided it is feasible
+            want = cond.op == 'ne'
+            side = cond if want else S.bnot(cond)
+            r = self._check(side)
+            if r != z3.unsat:
+                self.pos += 1
+                d = Decision(want, True)
+                self.trace.append(d)
+                self._assert(side)
+                if side.id not in self._gp_seen:
+                    self._gp_seen.add(side.id)
+                    self.generic_assumed.append(S.show(side, 3))
+                return want
         rt = self._check(cond)
         rf = self._check(S.bnot(cond))
         if rt == z3.unknown or rf == z3.unknown:
@@ -486,35 +637,40 @@ class Obligation:
         if self.model: d['model'] = self.model
         return d
 
+def _model_of(s):
+    m = s.model()
+    model = {}
+    for dcl in m.decls():
+        nm = dcl.name()
+        if '!' in nm or dcl.arity() > 0: continue
+        try:
+            model[nm] = z3_to_fraction(m[dcl])
+        except Exception:
+            pass
+    return model
+
 def prove(z, pc_nodes, claim, timeout_ms=60000, name='', want_model=True):
-    """Is (AND pc) => claim valid?  Returns (status, model) with status in proved / violated / unknown."""
-    s = z3.Solver()
-    s.set('timeout', timeout_ms)
-    deps = set()
-    for n in pc_nodes:
-        e, d = z.tr(n)
-        s.add(e); deps |= d
-    e, d = z.tr(S.bnot(claim))
-    s.add(e); deps |= d
-    for k in sorted(deps):
-        s.add(z.def_list[k][1])
+    """Is (AND pc) => claim valid?  Returns (status, model) with status in proved / violated / unknown.
+    Stage 1 uses the sliced context (an unsat answer there is final); a sat answer is only accepted from the full context."""
+    neg = S.bnot(claim)
     t = time.time()
-    r = s.check()
-    z.solver_time += time.time() - t
-    z.queries += 1
+    try:
+        ok = norm_of(z).unsat(list(pc_nodes) + [neg])
+    except RecursionError:
+        ok = False
+    z.queries += 1; z.solver_time += time.time() - t
+    if ok:
+        return 'proved', None
+    sl, dropped = slice_context(z, pc_nodes, neg)
+    if dropped:
+        r, s = _solve(z, sl + [neg], timeout_ms)
+        if r == z3.unsat:
+            return 'proved', None
+    r, s = _solve(z, list(pc_nodes) + [neg], timeout_ms)
     if r == z3.unsat:
         return 'proved', None
     if r == z3.sat:
-        m = s.model()
-        model = {}
-        for dcl in m.decls():
-            nm = dcl.name()
-            if '!' in nm or dcl.arity() > 0: continue
-            try:
-                model[nm] = z3_to_fraction(m[dcl])
-            except Exception:
-                pass
-        return 'violated', model
+        return 'violated', _model_of(s)
     return 'unknown', None
 
 def satisfiable(z, nodes, timeout_ms=30000):
@@ -522,10 +678,10 @@ def satisfiable(z, nodes, timeout_ms=30000):
     s.set('timeout', timeout_ms)
     deps = set()
     for n in nodes:
-        e, d = z.tr(n)
+        e, d = z.trs(n)
         s.add(e); deps |= d
     for k in sorted(deps):
-        s.add(z.def_list[k][1])
+        s.add(z.sdef(k))
     t = time.time()
     r = s.check()
     z.solver_time += time.time() - t
